@@ -159,6 +159,13 @@ def actorViolations (pre : State) (op : Op) : List String :=
     | none => []
   | _ => []
 
+/-- the orders an accepted Renew creates belong to — and are therefore charged to — the DID that signed it -/
+def renewalViolations (pre post : State) (op : Op) : List String :=
+  match op with
+  | .renew _ _ _ sd _ _ _ =>
+    (post.orders.filter (fun o => (pre.getOrder o.id).isNone && o.owner ≠ sd)).map (fun o => s!"renewal-order{o.id}-owned-by{o.owner}-signed-by{sd}")
+  | _ => []
+
 /-! ### C19: fault reports -/
 def isFaultOp : Op → Bool
   | .report .. => true
@@ -227,6 +234,7 @@ def checkStep (e : Env) (pre : Sys) (op : Op) (res : Res) (post : Sys) (origin :
    else []) ++
   -- C10: the actor of an accepted message must be entitled to act for what it touched
   (if res = .ok then (actorViolations pre.st op).map (fun v => ("C10", s!"clause=actor cls={match op with | .cancel .. => "cancel-claimed-provider" | _ => "none"} rec={v}")) else []) ++
+  (if res = .ok then (renewalViolations pre.st post.st op).map (fun v => ("C10", s!"clause=renewalOwnedBySigner cls=none rec={v}")) else []) ++
   -- C11: a completed shard disappears only at/after the end of its paid period, or through an
   -- owner/grantee request (terminate, force-push completion), a migration hand-over or a cancel
   (let gone := pre.st.shards.filter (fun sh => sh.status = ShardCompleted && (post.st.getShard sh.id).isNone)
